@@ -85,7 +85,7 @@ def main():
                         if isinstance(exc, (KeyboardInterrupt, SystemExit)):
                             raise
                         ck.fail("draw-raises", dict(inp, quantile=q), f"{type(exc).__name__}: {str(exc)[:120]} (quantile above the total mass {total_ref})")
-            if draws and fam != "schulz_zimm":
+            if draws:
                 mean = float(np.mean(draws))
                 tol = 0.03 * max(abs(ref.mean), 1.0) + (1.0 if ref.discrete else 0.0)
                 if abs(mean - ref.mean) > tol:
@@ -137,11 +137,8 @@ def main():
             ck.extra.setdefault("normalisation", {})[text] = whole
             if abs(whole - want_total) > 1e-6 and fam != "schulz_zimm":
                 ck.fail("not-normalised", inp, f"total probability {whole}")
-            if fam == "schulz_zimm" and abs(whole - 1.0) > 2e-2:
-                # recorded finding only where the implementation IS the documented density summed over the integers 1, 2, ... (its total equals the
-                # reference's): any other deviation of the total is a new violation
-                ck.fail("not-normalised", inp, f"total probability {whole} (density used as mass function; the documented density sums to {total_ref} over the positive integers)",
-                        "schulz-zimm-density-used-as-mass-function" if abs(whole - total_ref) <= 1e-6 else None)
+            if fam == "schulz_zimm" and abs(whole - 1.0) > 1e-6:
+                ck.fail("not-normalised", inp, f"total probability {whole}")
             # text form reproduces the parameters
             s = d.generate_string(True)
             d2 = get_distribution(s)
